@@ -24,6 +24,17 @@ def key_fn(it, res, fails):
 def main(tier, seed):
     quick = tier == "quick"
     items = [it for it in C.corpus_files() if "while true" not in it["text"]]
+    shapes = [
+        ("guard_overlapping_or", "c = 0\nx = 0\nwhile c <= 1 || (c >= 1 && c < 3):\n    c = c + 1 {1/2} c\n    x = x + 2\nend\n", ["x", "c", "x**2"],
+         {"c": [0, 1, 2, 3]}),
+        ("guard_not_eq", "c = 0\nx = 0\nwhile c < 2 || !(c == 3):\n    c = c + 1 {1/3} c\n    x = x + c\nend\n", ["x", "c"], {"c": [0, 1, 2, 3]}),
+        ("guard_inequality_multi", "c = 0\nx = 1\nwhile c < 3:\n    c = c + 1 {1/2} c + 2 {1/4} c\n    x = 2*x\nend\n", ["x", "c", "c*x"], {"c": [0, 1, 2, 3, 4]}),
+        ("guard_trap", "c = 0\nx = 0\nwhile c < 3:\n    x = x + 1\n    if c == 0:\n        c = 1 {1/3} 3 {1/3} 0\n    end\nend\n", ["x", "c"], {"c": [0, 1, 3]}),
+    ]
+    for name, text, goals, types in shapes:
+        decl = "types\n" + "".join(f"    {v} : Finite({', '.join(map(str, vals))})\n" for v, vals in types.items()) + "end\n"
+        items.append({"id": "gshape-" + name, "text": decl + text, "T": None, "goals": goals, "points": [{}],
+                      "origin": "fixed guarded shape " + name, "types": types})
     gen_items = C.generated(seed, 30 if quick else 250, profile={"guard": "flag"}, ngoals=3) + \
         C.generated(seed + 1, 20 if quick else 150, profile={"guard": "counter"}, ngoals=3, prefix="genc")
     items += gen_items
